@@ -55,13 +55,13 @@ the frame peak, never reaches the halted state on its committed timeline. -/
 theorem core_never_halts (cf : Core.Config) (body : Core.S) (hw : 2 ≤ cf.w)
     (hB : Core.funcLen cf.checked body + stdlibLength < 256 ^ cf.w)
     (hSE : 5 * cf.w + cf.stackWords * cf.w + cf.w < 256 ^ cf.w)
-    (hwf : Core.wfS [] body = true)
+    (hwf : Core.wfS [] body = true) (hyl : Core.youLevel body = true)
     (fuel : Nat) (env' : Core.Env) (tr : List Ev) (res : Core.Res)
     (hex : Core.exec (256 ^ cf.w) (8 * cf.w) fuel (fun _ => 0) body = some (env', tr, res))
     (hck : res = .div0 → cf.checked = true)
     (hroom : Core.pkS cf.w cf.w body ≤ (cf.stackWords + 1) * cf.w) :
     C03_statement (Core.coreProg cf body) (Core.coreInit cf body) :=
-  (Core.core_correct cf body hw hB hSE hwf fuel env' tr res hex hck hroom).choose_spec.2
+  (Core.core_correct cf body hw hB hSE hwf hyl fuel env' tr res hex hck hroom).choose_spec.2
 
 /-- … and neither does a checked build whose stack is too small: it ends in `stack_overflow` -/
 theorem core_overflow_never_halts (cf : Core.Config) (body : Core.S) (hw : 2 ≤ cf.w) (hck : cf.checked = true)
